@@ -1521,11 +1521,11 @@ void StringReader::go(size_t offset) {
 }
 
 void StringReader::skip(size_t bytes) {
-  this->offset += bytes;
-  if (this->offset > this->length) {
+  if ((this->offset > this->length) || (bytes > this->length - this->offset)) {
     this->offset = this->length;
     throw out_of_range("skip beyond end of string");
   }
+  this->offset += bytes;
 }
 
 bool StringReader::skip_if(const void* data, size_t size) {
